@@ -47,6 +47,12 @@ pub fn alphabet() -> Vec<P> {
         v.push(P::amt(acct, "0.4", "X").with_bal(Bal::Val("0.40", "X")));
         v.push(P::amt(acct, "0.6", "X").with_bal(Bal::Val("1", "X")));
         v.push(P::amt(acct, "-0.4", "X").with_bal(Bal::Val("1", "X")));
+        // a posting carrying BOTH a cost / lot price and an assertion: it balances at its cost, the assertion is about
+        // its own commodity
+        v.push(P::amt(acct, "1", "X").with_ann(crate::refledger::Ann::Rate("2", "Y")).with_bal(Bal::Val("1", "X")));
+        v.push(P::amt(acct, "1", "X").with_ann(crate::refledger::Ann::Rate("2", "Y")).with_bal(Bal::Val("2", "X")));
+        v.push(P::amt(acct, "-1", "X").with_ann(crate::refledger::Ann::LotRate("3", "Y")).with_bal(Bal::Val("0", "X")));
+        v.push(P::amt(acct, "2", "Y").with_ann(crate::refledger::Ann::Total("3", "X")).with_bal(Bal::Val("2", "Y")));
         v.push(P::amt(acct, "1", "X").with_bal(Bal::Val("1", "Y")));
         v.push(P::amt(acct, "1", "X").with_bal(Bal::Val("0", "Y")));
         v.push(P::amt(acct, "-1", "Y").with_bal(Bal::Val("2", "X")));
@@ -62,6 +68,7 @@ pub fn reduced(full: &[P]) -> Vec<P> {
             (None, Bal::Val(w, _)) => matches!(*w, "0" | "1" | "3"),
             (Some((v, _)), Bal::None) => matches!(*v, "1" | "-1"),
             (Some((v, c)), Bal::Zero) => *v == "1" && *c == "X" || *v == "-1" && *c == "X",
+            (Some((v, c)), Bal::Val(w, wc)) if p.ann != crate::refledger::Ann::None => *v == "1" && *c == "X" && *w == "1" && wc == c,
             (Some((v, c)), Bal::Val(w, wc)) => (c == wc && matches!((*v, *w), ("1", "1") | ("1", "2") | ("-1", "0") | ("1", "0") | ("0.4", "0"))) || (c.is_empty() && *w == "1"),
         })
         .cloned()
